@@ -23,17 +23,17 @@ Definition step (c : cfg) (tasks : list task) (g : gstate) (i : nat) (r : rec) :
   let g1 := consume tasks g i r in
   let ts0 := tget g1 i in
   let warn := warn_of g1 ts0 r in
-  let g2 := mkg (g_tasks g1) (g_first g1) (if r_time r =? 0 then g_prev g1 else r_time r) in
+  let g2 := mkg (g_tasks g1) (g_first g1) (if r_time r =? 0 then g_prev g1 else r_time r) (g_sjd g1) (g_sjc g1) in
   let ts1 := stamp ts0 (r_time r) in
   match r_type r with
   | LOST =>
       (warn ++ (if t_usc ts0 =? 0 then [] else [mk KLost i ts0 (g_first g2) (t_dd ts0 + 1) (r_addr r) 0 0]), g2)
   | ENTRY =>
       let depth := if pend then t_sc ts1 - 1 else t_dd ts1 in
-      let ts2 := if is_fork c (r_addr r) then set_fork ts1 (depth + 1) else ts1 in
+      let '(ts2, sj) := fixup_entry c r depth ts1 (g_sjd g2, g_sjc g2) in
       let idx := t_sc ts2 - 1 in
       (warn ++ [mk KOpen i ts2 (g_first g2) depth (r_addr r) 0 (f_addr (fget (t_stack ts2) idx))],
-       tset g2 i (set_dd ts2 (depth + 1)))
+       tset (set_sj g2 sj) i (update_entry r depth ts2 sj))
   | EXIT =>
       let f := fget (t_stack ts1) (t_sc ts1) in
       let depth := if pend then t_sc ts1 else N.pred (t_dd ts1) in
@@ -48,7 +48,8 @@ Lemma run_nofold_cons c tasks i r tl g : c_fold c = false ->
 Proof.
   intros Hf. cbn [run]. unfold step, warn_of. rewrite Hf.
   destruct (r_type r).
-  - destruct tl as [|[j r'] tl']; cbn [andb];
+  - destruct (fixup_entry c r _ _ _) as [ts2 sj].
+    destruct tl as [|[j r'] tl']; cbn [andb];
       match goal with |- context [run c tasks ?l ?g] => destruct (run c tasks l g) as [out g''] end;
       rewrite <- app_assoc; reflexivity.
   - match goal with |- context [run c tasks ?l ?g] => destruct (run c tasks l g) as [out g''] end.
@@ -71,12 +72,31 @@ Qed.
 Lemma warn_of_warn g1 ts0 r : Forall (fun w => not_warn w = false) (warn_of g1 ts0 r).
 Proof. unfold warn_of. destruct (_ && _); repeat constructor. Qed.
 
+(* the fix-ups touch fork_display_depth, longjmp_depth and the static setjmp pair only *)
+Lemma fixup_fields c r d ts sj :
+  let ts' := fst (fixup_entry c r d ts sj) in
+  t_set ts' = t_set ts /\ t_sc ts' = t_sc ts /\ t_dd ts' = t_dd ts /\ t_stack ts' = t_stack ts /\
+  t_ts ts' = t_ts ts /\ t_ts_last ts' = t_ts_last ts /\ t_orphan ts' = t_orphan ts /\ t_usc ts' = t_usc ts /\
+  t_lost ts' = t_lost ts /\ t_ljp ts' = t_ljp ts.
+Proof.
+  unfold fixup_entry.
+  destruct (is_exec_id (r_addr r)); [cbn; repeat split|].
+  destruct (is_setjmp_id (r_addr r)); [cbn; repeat split|].
+  destruct (is_longjmp_id (r_addr r)); [cbn; repeat split|].
+  destruct (is_fork c (r_addr r)); cbn; repeat split.
+Qed.
+
 Lemma step_tags c tasks g i r : is_lost r = false ->
   map tag_of_line (filter not_warn (fst (step c tasks g i r))) = [(i, r_time r)].
 Proof.
   unfold step, is_lost. set (g1 := consume tasks g i r).
-  destruct (r_type r); intros Hl; try discriminate; cbn [fst]; rewrite filter_warn_app by (auto using warn_of_warn); cbn [map];
-    unfold tag_of_line, mk; cbn [l_task l_time]; try destruct (is_fork c (r_addr r)); reflexivity.
+  destruct (r_type r); intros Hl; try discriminate.
+  - match goal with |- context [fixup_entry c r ?d ?ts ?sj] =>
+      pose proof (fixup_fields c r d ts sj) as HF; destruct (fixup_entry c r d ts sj) as [ts2 sj2] end.
+    cbn [fst] in *. destruct HF as (_ & _ & _ & _ & Hts & _).
+    rewrite filter_warn_app by (auto using warn_of_warn). cbn [map]. unfold tag_of_line, mk. cbn [l_task l_time].
+    rewrite Hts. reflexivity.
+  - cbn [fst]. rewrite filter_warn_app by (auto using warn_of_warn). reflexivity.
 Qed.
 
 Definition no_lost (l : list (nat * rec)) : Prop := Forall (fun p => is_lost (snd p) = false) l.
@@ -129,7 +149,7 @@ Qed.
 
 Definition rel (ts : tstate) (ss : sstate) : Prop :=
   t_set ts = s_set ss /\ t_dd ts = s_dd ss /\ t_fork_dd ts = s_fork ss /\ t_orphan ts = s_orphan ss /\
-  t_lost ts = false /\
+  t_lost ts = false /\ t_ljp ts = false /\
   (s_set ss = true -> t_sc ts = N.of_nat (length (s_stk ss)) /\ live (t_stack ts) (s_stk ss)).
 
 Lemma rel_init o : rel (tstate_init o) (mkss false 0 0 [] o).
@@ -137,11 +157,21 @@ Proof. repeat split; cbn in *; discriminate. Qed.
 Lemma rel0 : rel tstate0 sstate0.
 Proof. apply (rel_init false). Qed.
 
+(* fstack_update_stack_count leaves these fields alone *)
+Lemma count_fields x r :
+  t_set (count x r) = t_set x /\ t_orphan (count x r) = t_orphan x /\ t_lost (count x r) = t_lost x /\
+  t_ts (count x r) = t_ts x /\ t_ts_last (count x r) = t_ts_last x /\ t_stack (count x r) = t_stack x /\
+  t_fork_dd (count x r) = t_fork_dd x /\ t_ljd (count x r) = t_ljd x.
+Proof.
+  unfold count. destruct (r_type r); try (repeat split; reflexivity).
+  destruct (t_ljp x && (r_depth r <=? t_ljd x)); repeat split; reflexivity.
+Qed.
+
 Lemma consume_orphan inh ts r : t_orphan (consume_task inh ts r) = t_orphan ts.
 Proof.
   assert (F : t_orphan (first_setup inh ts r) = t_orphan ts) by (unfold first_setup; destruct (t_set ts); reflexivity).
   unfold consume_task. destruct (t_lost (first_setup inh ts r) && is_lost r); [exact F|].
-  unfold count. cbn [t_orphan].
+  destruct (count_fields (account (resync (first_setup inh ts r) r) r) r) as (_ & -> & _).
   assert (A : forall x, t_orphan (account x r) = t_orphan x).
   { intros x. unfold account. destruct (r_type r); try reflexivity. destruct (t_sc x =? 0); reflexivity. }
   assert (R : forall x, t_orphan (resync x r) = t_orphan x) by (intros x; unfold resync; destruct (t_lost x); reflexivity).
@@ -161,13 +191,15 @@ Qed.
 
 Lemma consume_lost_flag inh ts r : t_lost ts = false -> t_lost (consume_task inh ts r) = is_lost r.
 Proof.
-  intros H. destruct ts as [st sc dd fd stk t tl orp usc lost]. cbn [t_lost] in H. subst lost.
-  unfold consume_task, count, account, resync, first_setup, is_lost.
-  cbn [t_set t_sc t_dd t_fork_dd t_stack t_ts t_ts_last t_orphan t_usc t_lost].
-  destruct st, (r_type r);
-    cbn [t_set t_sc t_dd t_fork_dd t_stack t_ts t_ts_last t_orphan t_usc t_lost andb];
-    repeat match goal with |- context [if ?b then _ else _] => destruct b end; reflexivity.
+  intros H. rewrite consume_nolost by assumption.
+  destruct (count_fields (account (first_setup inh ts r) r) r) as (_ & _ & -> & _).
+  assert (F : t_lost (first_setup inh ts r) = false) by (rewrite first_setup_lost; exact H).
+  unfold account, is_lost. destruct (r_type r); cbn [t_lost]; try exact F; try reflexivity.
+  destruct (t_sc (first_setup inh ts r) =? 0); cbn [t_lost]; exact F.
 Qed.
+
+Lemma first_setup_ljp inh ts r : t_ljp (first_setup inh ts r) = t_ljp ts.
+Proof. unfold first_setup. destruct (t_set ts); reflexivity. Qed.
 
 Lemma s_first_orphan inh ss r : s_orphan (s_first inh ss r) = s_orphan ss.
 Proof. unfold s_first. destruct (s_set ss); reflexivity. Qed.
@@ -179,7 +211,7 @@ Lemma setup_rel inh ts ss r : rel ts ss ->
   t_sc ts' = N.of_nat (length (s_stk ss')) /\ live (t_stack ts') (s_stk ss') /\
   t_ts ts' = t_ts ts /\ t_ts_last ts' = t_ts_last ts.
 Proof.
-  intros (Hs & Hd & Hf & Ho & _ & Hl). unfold first_setup, s_first. rewrite Hs.
+  intros (Hs & Hd & Hf & Ho & _ & _ & Hl). unfold first_setup, s_first. rewrite Hs.
   destruct (s_set ss) eqn:E.
   - destruct (Hl eq_refl) as [Hsc Hlive]. repeat split; auto; congruence.
   - cbn [t_set s_set t_dd s_dd t_fork_dd s_fork t_sc s_stk t_stack t_ts t_ts_last].
@@ -221,10 +253,13 @@ Lemma exit_rel inh ts ss r t0 stk' : rel ts ss -> r_type r = EXIT -> s_stk (s_fi
 Proof.
   intros Hrel Hty Hstk. destruct (setup_rel inh ts ss r Hrel) as (H1 & H2 & H3 & H4 & H5 & H6 & _).
   rewrite consume_nolost by (destruct Hrel as (_ & _ & _ & _ & Hlo & _); exact Hlo).
+  assert (Hlj : t_ljp (first_setup inh ts r) = false).
+  { rewrite first_setup_ljp. destruct Hrel as (_ & _ & _ & _ & _ & Hj & _). exact Hj. }
   unfold count, account. rewrite Hty.
   set (ts1 := first_setup inh ts r) in *. set (ss1 := s_first inh ss r) in *.
   rewrite Hstk in *. cbn [length] in H5.
   destruct (t_sc ts1 =? 0) eqn:Ez; [lia|].
+  cbn [t_ljp t_ljd]. rewrite Hlj. cbn [andb].
   cbn [t_set t_dd t_fork_dd t_sc t_stack].
   destruct H6 as (L & rest & E & Hm & Hv).
   cbn [rev] in Hm. apply map_eq_app in Hm. destruct Hm as (L0 & Lf & EL & Hm0 & Hmf).
@@ -310,6 +345,31 @@ Proof.
   rewrite E. reflexivity.
 Qed.
 
+Lemma plain_not_special a : plain_id a = true ->
+  is_exec_id a = false /\ is_setjmp_id a = false /\ is_longjmp_id a = false.
+Proof. unfold plain_id, is_exec_id, is_setjmp_id, is_longjmp_id. intros H. repeat split; lia. Qed.
+
+Lemma fixup_plain c r d ts sj : plain_id (r_addr r) = true ->
+  fixup_entry c r d ts sj = (if is_fork c (r_addr r) then set_fork ts (d + 1) else ts, sj).
+Proof.
+  intros H. destruct (plain_not_special _ H) as (A & B & C). unfold fixup_entry. rewrite A, B, C.
+  destruct (is_fork c (r_addr r)); reflexivity.
+Qed.
+
+Lemma update_plain r d ts sj : plain_id (r_addr r) = true -> update_entry r d ts sj = set_dd ts (d + 1).
+Proof. intros H. destruct (plain_not_special _ H) as (A & B & C). unfold update_entry. rewrite A, C. reflexivity. Qed.
+
+Lemma consume_ljp_false inh ts r : t_ljp ts = false -> t_ljp (consume_task inh ts r) = false.
+Proof.
+  intros H. unfold consume_task.
+  assert (F : t_ljp (first_setup inh ts r) = false) by (rewrite first_setup_ljp; exact H).
+  destruct (t_lost (first_setup inh ts r) && is_lost r); [exact F|].
+  assert (R : t_ljp (resync (first_setup inh ts r) r) = false) by (unfold resync; destruct (t_lost _); [exact F|exact F]).
+  assert (A : t_ljp (account (resync (first_setup inh ts r) r) r) = false).
+  { unfold account. destruct (r_type r); cbn [t_ljp]; try exact R. destruct (t_sc _ =? 0); cbn [t_ljp]; exact R. }
+  unfold count. destruct (r_type r); cbn [t_ljp]; try exact A. rewrite A. cbn [andb t_ljp]. rewrite ?A. reflexivity || exact A.
+Qed.
+
 (* one record: the automaton of fstack.c/replay.c emits what the reference semantics emits,
    and the states stay related *)
 Lemma step_refines forks tasks g S i r rest tl :
@@ -337,10 +397,14 @@ Proof.
   { rewrite Hts0, consume_orphan. unfold ss. rewrite s_first_orphan. destruct (Hall i) as (_ & _ & _ & Ho & _). exact Ho. }
   assert (EL : t_lost (tget g1 i) = is_lost r) by (rewrite Hts0; apply consume_lost_flag; exact Hpend).
   unfold is_lost in EL.
+  assert (EJ : t_ljp (tget g1 i) = false).
+  { rewrite Hts0. apply consume_ljp_false. destruct (Hall i) as (_ & _ & _ & _ & _ & Hj & _). exact Hj. }
   destruct (r_type r) eqn:Hty; [| |cbn [wf_stream] in Hwf1; rewrite Hty in Hwf1; rewrite !andb_false_r in Hwf1; discriminate].
   - (* ENTRY *)
     destruct (entry_rel (s_inherit tasks S i) _ _ r (Hall i) Hty) as (E1 & E2 & E3 & E4 & E5).
     fold ss in E2, E3, E4, E5. rewrite <- Hts0 in E1, E2, E3, E4, E5.
+    assert (Hplain : plain_id (r_addr r) = true) by (cbn [wf_stream] in Hwf1; lia).
+    rewrite (fixup_plain _ _ _ _ _ Hplain). cbn iota beta. rewrite (update_plain _ _ _ _ Hplain).
     eexists. eexists. split; [reflexivity|].
     cbn [fst snd]. split.
     { rewrite events_warn_app by apply warn_of_warn. unfold events_of_line, mk. cbn [l_kind l_task l_indent l_name l_time].
@@ -348,16 +412,16 @@ Proof.
       destruct (existsb (N.eqb (r_addr r)) forks); cbn [set_fork stamp t_dd t_ts]; rewrite E2; reflexivity. }
     split.
     { split.
-      - unfold tset. cbn [g_tasks]. rewrite length_tupd, length_supd. unfold g1, consume. cbn [g_tasks].
+      - unfold tset, set_sj. cbn [g_tasks]. rewrite length_tupd, length_supd. unfold g1, consume. cbn [g_tasks].
         rewrite length_tupd. exact Hlen.
-      - intros j. unfold tget, tset. cbn [g_tasks].
+      - intros j. unfold tget, tset, set_sj. cbn [g_tasks].
         assert (Hg1 : (i < length (g_tasks g1))%nat) by (unfold g1, consume; cbn [g_tasks]; rewrite length_tupd; lia).
         rewrite nth_tupd by assumption. rewrite nth_supd by assumption.
         destruct (Nat.eqb j i) eqn:Eji.
         + unfold rel, is_fork. cbn [c_forks].
           destruct (existsb (N.eqb (r_addr r)) forks);
-            cbn [set_dd set_fork stamp t_set t_dd t_fork_dd t_sc t_stack t_orphan t_lost s_set s_dd s_fork s_stk s_orphan];
-            unfold tget in *; rewrite ?E1, ?E2, ?E3, ?E0, ?EL; repeat split; auto.
+            cbn [set_dd set_fork stamp t_set t_dd t_fork_dd t_sc t_stack t_orphan t_lost t_ljp s_set s_dd s_fork s_stk s_orphan];
+            unfold tget in *; rewrite ?E1, ?E2, ?E3, ?E0, ?EL, ?EJ; repeat split; auto.
         + unfold g1, consume. cbn [g_tasks]. rewrite nth_tupd by assumption. rewrite Eji. apply Hall. }
     split.
     { rewrite nth_supd by assumption. rewrite Nat.eqb_refl. unfold wfrem. cbn [s_set s_stk].
@@ -385,8 +449,8 @@ Proof.
         assert (Hg1 : (i < length (g_tasks g1))%nat) by (unfold g1, consume; cbn [g_tasks]; rewrite length_tupd; lia).
         rewrite nth_tupd by assumption. rewrite nth_supd by assumption.
         destruct (Nat.eqb j i) eqn:Eji.
-        + unfold rel. cbn [set_dd stamp t_set t_dd t_fork_dd t_sc t_stack t_orphan t_lost s_set s_dd s_fork s_stk s_orphan].
-          unfold tget in *. rewrite ?E1, ?E2, ?E3, ?E0, ?EL. repeat split; auto.
+        + unfold rel. cbn [set_dd stamp t_set t_dd t_fork_dd t_sc t_stack t_orphan t_lost t_ljp s_set s_dd s_fork s_stk s_orphan].
+          unfold tget in *. rewrite ?E1, ?E2, ?E3, ?E0, ?EL, ?EJ. repeat split; auto.
         + unfold g1, consume. cbn [g_tasks]. rewrite nth_tupd by assumption. rewrite Eji. apply Hall. }
     split.
     { rewrite nth_supd by assumption. rewrite Nat.eqb_refl. unfold wfrem. cbn [s_set s_stk].
@@ -612,10 +676,17 @@ Definition core := (bool * nat * N * N * N)%type.
 Definition core_of (e : event) : core :=
   (e_open e, e_task e, e_indent e, if e_open e then e_name e else 0, e_dur e).
 
+Lemma in_proj_early i r l : In (i, r) l -> In r (proj i l).
+Proof.
+  intros H. unfold proj. apply in_map_iff. exists (i, r). split; [reflexivity|].
+  apply filter_In. split; [exact H|]. cbn. apply Nat.eqb_refl.
+Qed.
+
 (* the reader state without the two timestamp fields *)
 Definition strip (ts : tstate) : tstate :=
-  mkts (t_set ts) (t_sc ts) (t_dd ts) (t_fork_dd ts) (t_stack ts) 0 0 (t_orphan ts) (t_usc ts) (t_lost ts).
+  mkts (t_set ts) (t_sc ts) (t_dd ts) (t_fork_dd ts) (t_stack ts) 0 0 (t_orphan ts) (t_usc ts) (t_lost ts) (t_ljp ts) (t_ljd ts).
 Definition STR (g : gstate) : list tstate := map strip (g_tasks g).
+Definition SJ (g : gstate) : N * N := (g_sjd g, g_sjc g).
 
 Definition inh_of (tasks : list task) (T : list tstate) (i : nat) : N :=
   match k_parent (nth i tasks (mktask None [])) with
@@ -623,44 +694,47 @@ Definition inh_of (tasks : list task) (T : list tstate) (i : nat) : N :=
   | None => 0
   end.
 
-(* one record, on stripped states, producing core events *)
-Definition cstep (forks : list N) (i : nat) (inh : N) (ts : tstate) (r : rec) : list core * tstate :=
+(* one record, on stripped states and the static setjmp pair, producing core events *)
+Definition cstep (forks : list N) (i : nat) (inh : N) (sj : N * N) (ts : tstate) (r : rec) : list core * tstate * (N * N) :=
   let pend := t_lost ts in
   let ts0 := consume_task inh ts r in
   match r_type r with
-  | LOST => ([], ts0)
+  | LOST => ([], ts0, sj)
   | ENTRY =>
       let depth := if pend then t_sc ts0 - 1 else t_dd ts0 in
-      let ts2 := if is_forkb forks (r_addr r) then set_fork ts0 (depth + 1) else ts0 in
-      ([(true, i, depth, r_addr r, 0)], set_dd ts2 (depth + 1))
+      let '(ts2, sj') := fixup_entry (mkcfg false forks) r depth ts0 sj in
+      ([(true, i, depth, r_addr r, 0)], update_entry r depth ts2 sj', sj')
   | EXIT =>
       let f := fget (t_stack ts0) (t_sc ts0) in
       let depth := if pend then t_sc ts0 else N.pred (t_dd ts0) in
-      ([(false, i, depth, 0, f_time f)], set_dd ts0 depth)
+      ([(false, i, depth, 0, f_time f)], set_dd ts0 depth, sj)
   end.
 
-Fixpoint crun (forks : list N) (tasks : list task) (l : list (nat * rec)) (T : list tstate) : list core :=
+Fixpoint crun (forks : list N) (tasks : list task) (l : list (nat * rec)) (T : list tstate) (sj : N * N) : list core :=
   match l with
   | [] => []
   | (i, r) :: tl =>
-      let '(es, ts') := cstep forks i (inh_of tasks T i) (nth i T tstate0) r in
-      es ++ crun forks tasks tl (tupd T i ts')
+      let '(es, ts', sj') := cstep forks i (inh_of tasks T i) sj (nth i T tstate0) r in
+      es ++ crun forks tasks tl (tupd T i ts') sj'
   end.
 
 Lemma strip_idem ts : strip (strip ts) = strip ts.
 Proof. reflexivity. Qed.
 
 Lemma strip_first_setup inh ts r : strip (first_setup inh ts r) = first_setup inh (strip ts) r.
-Proof. destruct ts as [st sc dd fd stk t tl orp usc lost]. unfold first_setup, strip. cbn. destruct st; reflexivity. Qed.
+Proof. destruct ts as [st sc dd fd stk t tl orp usc lost ljp ljd]. unfold first_setup, strip. cbn. destruct st; reflexivity. Qed.
 Lemma strip_resync ts r : strip (resync ts r) = resync (strip ts) r.
-Proof. destruct ts as [st sc dd fd stk t tl orp usc lost]. unfold resync, strip. cbn. destruct lost; reflexivity. Qed.
+Proof. destruct ts as [st sc dd fd stk t tl orp usc lost ljp ljd]. unfold resync, strip. cbn. destruct lost; reflexivity. Qed.
 Lemma strip_account ts r : strip (account ts r) = account (strip ts) r.
 Proof.
-  destruct ts as [st sc dd fd stk t tl orp usc lost]. unfold account, strip. cbn.
+  destruct ts as [st sc dd fd stk t tl orp usc lost ljp ljd]. unfold account, strip. cbn.
   destruct (r_type r); try reflexivity. destruct (sc =? 0); reflexivity.
 Qed.
 Lemma strip_count ts r : strip (count ts r) = count (strip ts) r.
-Proof. destruct ts as [st sc dd fd stk t tl orp usc lost]. reflexivity. Qed.
+Proof.
+  destruct ts as [st sc dd fd stk t tl orp usc lost ljp ljd]. unfold count, strip. cbn.
+  destruct (r_type r); try reflexivity. destruct (ljp && (r_depth r <=? ljd)); reflexivity.
+Qed.
 
 Lemma strip_consume inh ts r : strip (consume_task inh ts r) = consume_task inh (strip ts) r.
 Proof.
@@ -680,7 +754,7 @@ Proof. unfold account. destruct (r_type r); try (split; reflexivity). destruct (
 Lemma consume_ts inh ts r : t_ts (consume_task inh ts r) = t_ts ts /\ t_ts_last (consume_task inh ts r) = t_ts_last ts.
 Proof.
   unfold consume_task. destruct (t_lost (first_setup inh ts r) && is_lost r); [apply ts_first_setup|].
-  unfold count. cbn [t_ts t_ts_last].
+  destruct (count_fields (account (resync (first_setup inh ts r) r) r) r) as (_ & _ & _ & -> & -> & _).
   destruct (ts_account (resync (first_setup inh ts r) r) r) as [A1 A2].
   destruct (ts_resync (first_setup inh ts r) r) as [B1 B2]. destruct (ts_first_setup inh ts r) as [C1 C2].
   split; congruence.
@@ -696,7 +770,8 @@ Proof. unfold account. destruct (r_type r); try reflexivity. destruct (t_sc ts =
 Lemma consume_set inh ts r : t_set (consume_task inh ts r) = true.
 Proof.
   unfold consume_task. destruct (t_lost (first_setup inh ts r) && is_lost r); [apply set_first_setup|].
-  unfold count. cbn [t_set]. rewrite set_account, set_resync. apply set_first_setup.
+  destruct (count_fields (account (resync (first_setup inh ts r) r) r) r) as (-> & _).
+  rewrite set_account, set_resync. apply set_first_setup.
 Qed.
 
 Lemma consume_inh_irrelevant inh inh' ts r : t_set ts = true -> consume_task inh ts r = consume_task inh' ts r.
@@ -729,7 +804,8 @@ Proof. unfold account, is_lost. destruct (r_type r); intros H; try discriminate;
 (* any record that is not a LOST marker ends the "marker pending" state *)
 Lemma consume_lost_clear inh ts r : is_lost r = false -> t_lost (consume_task inh ts r) = false.
 Proof.
-  intros H. unfold consume_task. rewrite H, andb_false_r. unfold count. cbn [t_lost].
+  intros H. unfold consume_task. rewrite H, andb_false_r.
+  destruct (count_fields (account (resync (first_setup inh ts r) r) r) r) as (_ & _ & -> & _).
   rewrite lost_account by assumption. apply lost_resync_clear.
 Qed.
 
@@ -745,45 +821,93 @@ Proof.
   rewrite E1, E2. reflexivity.
 Qed.
 
+
+Lemma fixup_forks c c' r d ts sj : c_forks c = c_forks c' -> fixup_entry c r d ts sj = fixup_entry c' r d ts sj.
+Proof. intros H. unfold fixup_entry, is_fork. rewrite H. reflexivity. Qed.
+
+Lemma strip_fixup c r d ts sj :
+  fixup_entry c r d (strip ts) sj = (strip (fst (fixup_entry c r d ts sj)), snd (fixup_entry c r d ts sj)).
+Proof.
+  unfold fixup_entry.
+  destruct (is_exec_id (r_addr r)); [reflexivity|].
+  destruct (is_setjmp_id (r_addr r)); [reflexivity|].
+  destruct (is_longjmp_id (r_addr r)); [reflexivity|].
+  destruct (is_fork c (r_addr r)); reflexivity.
+Qed.
+
+Lemma strip_update r d ts sj : strip (update_entry r d ts sj) = update_entry r d (strip ts) sj.
+Proof.
+  unfold update_entry. destruct (is_exec_id (r_addr r)); [reflexivity|]. destruct (is_longjmp_id (r_addr r)); reflexivity.
+Qed.
+
+Lemma STR_set_sj g sj : STR (set_sj g sj) = STR g. Proof. reflexivity. Qed.
+Lemma STR_tset g i x : STR (tset g i x) = tupd (STR g) i (strip x).
+Proof. unfold STR, tset. cbn [g_tasks]. apply map_tupd. Qed.
+Lemma SJ_tset g i x : SJ (tset g i x) = SJ g. Proof. reflexivity. Qed.
+Lemma SJ_consume tasks g i r : SJ (consume tasks g i r) = SJ g. Proof. reflexivity. Qed.
+
 (* a record processed without folding, seen on stripped states *)
 Lemma step_core c forks tasks g i r : (i < length (g_tasks g))%nat -> c_forks c = forks ->
-  map core_of (events_of (fst (step c tasks g i r))) =
-    fst (cstep forks i (inh_of tasks (STR g) i) (nth i (STR g) tstate0) r) /\
-  STR (snd (step c tasks g i r)) =
-    tupd (STR g) i (snd (cstep forks i (inh_of tasks (STR g) i) (nth i (STR g) tstate0) r)).
+  let cs := cstep forks i (inh_of tasks (STR g) i) (SJ g) (nth i (STR g) tstate0) r in
+  map core_of (events_of (fst (step c tasks g i r))) = fst (fst cs) /\
+  STR (snd (step c tasks g i r)) = tupd (STR g) i (snd (fst cs)) /\
+  SJ (snd (step c tasks g i r)) = snd cs.
 Proof.
-  intros Hi Hfk. unfold step, cstep.
+  intros Hi Hfk cs. subst cs. unfold step, cstep.
   rewrite (tget_consume _ _ _ _ Hi).
   rewrite nth_STR, <- inherit_STR, <- strip_consume.
   replace (t_lost (strip (tget g i))) with (t_lost (tget g i)) by reflexivity.
   set (pend := t_lost (tget g i)).
   set (ts0 := consume_task (inherit tasks g i) (tget g i) r).
-  unfold is_fork, is_forkb. rewrite Hfk.
   destruct (r_type r); cbn [fst snd].
-  - split.
-    + rewrite events_warn_app by apply warn_of_warn. unfold events_of_line, mk. cbn [l_kind l_task l_indent l_name map core_of e_open e_task e_indent e_name e_dur].
-      destruct (existsb (N.eqb (r_addr r)) forks), pend; reflexivity.
-    + unfold STR, tset, consume. cbn [g_tasks]. rewrite tupd_tupd, map_tupd. f_equal.
-      destruct (existsb (N.eqb (r_addr r)) forks), pend; reflexivity.
-  - split.
-    + rewrite events_warn_app by apply warn_of_warn. unfold events_of_line, mk. cbn [l_kind l_task l_indent l_name l_dur map core_of e_open e_task e_indent e_name e_dur].
+  - (* ENTRY *)
+    cbn [g_sjd g_sjc g_first].
+    set (depth := if pend then t_sc (stamp ts0 (r_time r)) - 1 else t_dd (stamp ts0 (r_time r))).
+    change (if pend then t_sc (strip ts0) - 1 else t_dd (strip ts0)) with depth.
+    rewrite (fixup_forks (mkcfg false forks) c) by (cbn [c_forks]; symmetry; exact Hfk).
+    rewrite strip_fixup.
+    assert (Hstamp : forall sj, strip (fst (fixup_entry c r depth (stamp ts0 (r_time r)) sj)) = strip (fst (fixup_entry c r depth ts0 sj))
+                                /\ snd (fixup_entry c r depth (stamp ts0 (r_time r)) sj) = snd (fixup_entry c r depth ts0 sj)).
+    { intros sj. unfold fixup_entry.
+      destruct (is_exec_id (r_addr r)); [split; reflexivity|].
+      destruct (is_setjmp_id (r_addr r)); [split; reflexivity|].
+      destruct (is_longjmp_id (r_addr r)); [split; reflexivity|].
+      destruct (is_fork c (r_addr r)); split; reflexivity. }
+    destruct (Hstamp (g_sjd (consume tasks g i r), g_sjc (consume tasks g i r))) as [Hs1 Hs2].
+    destruct (fixup_entry c r depth (stamp ts0 (r_time r)) (g_sjd (consume tasks g i r), g_sjc (consume tasks g i r))) as [ts2 sj2].
+    cbn [fst snd] in *. change (SJ g) with (g_sjd (consume tasks g i r), g_sjc (consume tasks g i r)).
+    rewrite <- Hs1, <- Hs2. cbn [fst snd].
+    split; [|split].
+    + rewrite events_warn_app by apply warn_of_warn. unfold events_of_line, mk.
+      cbn [l_kind l_task l_indent l_name map core_of e_open e_task e_indent e_name e_dur]. reflexivity.
+    + rewrite STR_tset, STR_set_sj. unfold STR, consume. cbn [g_tasks]. rewrite map_tupd, tupd_tupd, strip_update. reflexivity.
+    + destruct sj2; reflexivity.
+  - (* EXIT *)
+    split; [|split].
+    + rewrite events_warn_app by apply warn_of_warn. unfold events_of_line, mk.
+      cbn [l_kind l_task l_indent l_name l_dur map core_of e_open e_task e_indent e_name e_dur].
       destruct pend; reflexivity.
-    + unfold STR, tset, consume. cbn [g_tasks]. rewrite tupd_tupd, map_tupd. try (f_equal; destruct pend; reflexivity); reflexivity.
-  - split.
+    + rewrite STR_tset. unfold STR, consume. cbn [g_tasks]. rewrite map_tupd, tupd_tupd. try (f_equal; destruct pend; reflexivity); reflexivity.
+    + reflexivity.
+  - (* LOST *)
+    split; [|split].
     + rewrite events_warn_lost; [reflexivity|apply warn_of_warn|].
       destruct (t_usc ts0 =? 0); repeat constructor.
     + unfold STR, consume. cbn [g_tasks]. rewrite map_tupd. reflexivity.
+    + reflexivity.
 Qed.
 
 Lemma length_step c tasks g i r : length (g_tasks (snd (step c tasks g i r))) = length (g_tasks g).
 Proof.
-  unfold step. destruct (r_type r); cbn [snd]; unfold tset, consume; cbn [g_tasks]; rewrite ?length_tupd; reflexivity.
+  unfold step. destruct (r_type r); cbn [snd]; try destruct (fixup_entry _ _ _ _ _) as [ts2 sj2];
+    unfold tset, set_sj, consume; cbn [snd g_tasks]; rewrite ?length_tupd; reflexivity.
 Qed.
 
 (* unfolding [run] on its branches *)
 Definition leaf_cond (c : cfg) (i : nat) (r : rec) (tl : list (nat * rec)) : bool :=
   match r_type r, tl with
-  | ENTRY, (j, r') :: _ => c_fold c && Nat.eqb j i && (r_depth r' =? r_depth r) && is_exit r'
+  | ENTRY, (j, r') :: _ =>
+      c_fold c && Nat.eqb j i && (r_depth r' =? r_depth r) && is_exit r' && negb (no_fold_id (r_addr r))
   | _, _ => false
   end.
 
@@ -794,7 +918,8 @@ Lemma run_cons_step c tasks i r tl g : leaf_cond c i r tl = false ->
 Proof.
   intros Hf. cbn [run]. unfold step, warn_of. unfold leaf_cond in Hf.
   destruct (r_type r).
-  - destruct tl as [|[j r'] tl']; [|rewrite Hf];
+  - destruct (fixup_entry c r _ _ _) as [ts2 sj].
+    destruct tl as [|[j r'] tl']; [|rewrite Hf];
       match goal with |- context [run c tasks ?l ?g] => destruct (run c tasks l g) as [out g''] end;
       rewrite <- app_assoc; reflexivity.
   - match goal with |- context [run c tasks ?l ?g] => destruct (run c tasks l g) as [out g''] end.
@@ -809,11 +934,11 @@ Definition leaf_step (c : cfg) (tasks : list task) (g : gstate) (i : nat) (r r' 
   let g1 := consume tasks g i r in
   let ts0 := tget g1 i in
   let warn := warn_of g1 ts0 r in
-  let g2 := mkg (g_tasks g1) (g_first g1) (if r_time r =? 0 then g_prev g1 else r_time r) in
+  let g2 := mkg (g_tasks g1) (g_first g1) (if r_time r =? 0 then g_prev g1 else r_time r) (g_sjd g1) (g_sjc g1) in
   let ts1 := stamp ts0 (r_time r) in
   let depth := if pend then t_sc ts1 - 1 else t_dd ts1 in
-  let ts2 := if is_fork c (r_addr r) then set_fork ts1 (depth + 1) else ts1 in
-  let g3 := consume tasks (tset g2 i (set_dd ts2 depth)) i r' in
+  let '(ts2, sj) := fixup_entry c r depth ts1 (g_sjd g2, g_sjc g2) in
+  let g3 := consume tasks (tset (set_sj g2 sj) i (set_dd ts2 depth)) i r' in
   let ts3 := tget g3 i in
   let f := fget (t_stack ts3) (t_sc ts2 - 1) in
   (warn ++ [mk KLeaf i ts3 (g_first g3) depth (r_addr r) (f_time f) (f_addr f)], g3).
@@ -824,170 +949,277 @@ Lemma run_cons_leaf c tasks i r j r' tl' g : leaf_cond c i r ((j, r') :: tl') = 
   let '(out, g'') := run c tasks tl' g' in (ls ++ out, g'').
 Proof.
   intros Hf. cbn [run]. unfold leaf_step, warn_of. unfold leaf_cond in Hf.
-  destruct (r_type r); try discriminate. rewrite Hf.
+  destruct (r_type r); try discriminate.
+  destruct (fixup_entry c r _ _ _) as [ts2 sj]. rewrite Hf.
   match goal with |- context [run c tasks ?l ?g] => destruct (run c tasks l g) as [out g''] end.
   rewrite <- app_assoc. reflexivity.
 Qed.
 
-(* consuming a record does not look at the display depth (once the task is set up) *)
+(* consuming a record does not look at the display depth (task set up, no longjmp pending) *)
 Lemma account_set_dd x r d : account (set_dd x d) r = set_dd (account x r) d.
-Proof. unfold account, set_dd. cbn [t_set t_sc t_dd t_fork_dd t_stack t_ts t_ts_last t_orphan t_usc t_lost].
+Proof. unfold account, set_dd. cbn [t_set t_sc t_dd t_fork_dd t_stack t_ts t_ts_last t_orphan t_usc t_lost t_ljp t_ljd].
   destruct (r_type r); try reflexivity. destruct (t_sc x =? 0); reflexivity. Qed.
-Lemma count_set_dd x r d : count (set_dd x d) r = set_dd (count x r) d.
-Proof. reflexivity. Qed.
-Lemma consume_set_dd inh x r d : t_set x = true -> t_lost x = false ->
+Lemma account_ljp x r : t_ljp (account x r) = t_ljp x.
+Proof. unfold account. destruct (r_type r); try reflexivity. destruct (t_sc x =? 0); reflexivity. Qed.
+Lemma count_set_dd x r d : t_ljp x = false -> count (set_dd x d) r = set_dd (count x r) d.
+Proof.
+  intros H. destruct x as [st sc dd fd stk t tl orp usc lost ljp ljd]. cbn [t_ljp] in H. subst ljp.
+  unfold count, set_dd. cbn. destruct (r_type r); reflexivity.
+Qed.
+Lemma consume_set_dd inh x r d : t_set x = true -> t_lost x = false -> t_ljp x = false ->
   consume_task inh (set_dd x d) r = set_dd (consume_task inh x r) d.
 Proof.
-  intros Hs Hl. rewrite !consume_nolost by (try exact Hl; cbn [set_dd t_lost]; exact Hl).
-  unfold first_setup. cbn [set_dd t_set]. rewrite Hs. rewrite account_set_dd, count_set_dd. reflexivity.
+  intros Hs Hl Hj. rewrite !consume_nolost by (try exact Hl; cbn [set_dd t_lost]; exact Hl).
+  unfold first_setup. cbn [set_dd t_set]. rewrite Hs. rewrite account_set_dd, count_set_dd; [reflexivity|].
+  rewrite account_ljp. exact Hj.
 Qed.
 
-Lemma consume_exit_dd r' : r_type r' = EXIT -> forall (x : tstate) (d : N), t_set x = true -> t_lost x = false ->
+Lemma consume_exit_dd r' : r_type r' = EXIT -> forall (x : tstate) (d : N),
+  t_set x = true -> t_lost x = false -> t_ljp x = false ->
   consume_task 0 (set_dd x (d + 1)) r' = set_dd (consume_task 0 (set_dd x d) r') (d + 1) /\
   t_dd (consume_task 0 (set_dd x d) r') = d /\
   t_sc (consume_task 0 (set_dd x d) r') = N.pred (t_sc x) /\
   t_lost (consume_task 0 (set_dd x d) r') = false.
 Proof.
-  intros Hty x d Hs Hl. rewrite !consume_set_dd by assumption. repeat split; try reflexivity.
+  intros Hty x d Hs Hl Hj. rewrite !consume_set_dd by assumption. repeat split; try reflexivity.
   - cbn [set_dd t_sc]. rewrite consume_nolost by assumption. unfold first_setup. rewrite Hs.
-    unfold count, account. rewrite Hty. cbn [t_sc]. destruct (t_sc x =? 0); reflexivity.
+    unfold count. rewrite Hty, account_ljp, Hj. cbn [andb t_sc]. unfold account. rewrite Hty.
+    destruct (t_sc x =? 0); reflexivity.
   - cbn [set_dd t_lost]. apply consume_lost_clear. unfold is_lost. rewrite Hty. reflexivity.
+Qed.
+
+(* no longjmp() in the stream: longjmp_pending is never set *)
+Definition no_longjmp (l : list (nat * rec)) : Prop := Forall (fun p => is_longjmp_id (r_addr (snd p)) = false) l.
+Definition ljp_clear (T : list tstate) : Prop := Forall (fun ts => t_ljp ts = false) T.
+
+Lemma ljp_clear_nth T i : ljp_clear T -> t_ljp (nth i T tstate0) = false.
+Proof.
+  intros H. destruct (Nat.lt_ge_cases i (length T)) as [Hlt|Hge].
+  - unfold ljp_clear in H. rewrite Forall_forall in H. apply H. apply nth_In. exact Hlt.
+  - rewrite nth_overflow by exact Hge. reflexivity.
+Qed.
+Lemma ljp_clear_tupd T i x : ljp_clear T -> t_ljp x = false -> ljp_clear (tupd T i x).
+Proof.
+  intros H Hx. revert i. induction H as [|h t Hh Ht IH]; intros [|i]; cbn [tupd]; try constructor; auto.
+  apply IH.
+Qed.
+
+Lemma fixup_ljp c r d ts sj : t_ljp (fst (fixup_entry c r d ts sj)) = t_ljp ts.
+Proof. destruct (fixup_fields c r d ts sj) as (_ & _ & _ & _ & _ & _ & _ & _ & _ & H). exact H. Qed.
+
+Lemma update_ljp r d ts sj : is_longjmp_id (r_addr r) = false -> t_ljp (update_entry r d ts sj) = t_ljp ts.
+Proof. intros H. unfold update_entry. rewrite H. destruct (is_exec_id (r_addr r)); reflexivity. Qed.
+
+(* cstep keeps longjmp_pending clear when the record is no longjmp() *)
+Lemma cstep_ljp forks i inh sj ts r : is_longjmp_id (r_addr r) = false -> t_ljp ts = false ->
+  t_ljp (snd (fst (cstep forks i inh sj ts r))) = false.
+Proof.
+  intros Hn Hj. unfold cstep. pose proof (consume_ljp_false inh ts r Hj) as H0.
+  destruct (r_type r); cbn [fst snd].
+  - match goal with |- context [fixup_entry ?c r ?d ?t ?s] =>
+      pose proof (fixup_ljp c r d t s) as HF; destruct (fixup_entry c r d t s) as [ts2 sj2] end.
+    cbn [fst snd] in *. rewrite update_ljp by exact Hn. rewrite HF. exact H0.
+  - cbn [set_dd t_ljp]. exact H0.
+  - exact H0.
 Qed.
 
 (* the folded line is the Open and the Close of the two unfolded steps *)
 Lemma leaf_core c forks tasks g i r r' : (i < length (g_tasks g))%nat -> c_forks c = forks ->
-  r_type r = ENTRY -> r_type r' = EXIT ->
+  r_type r = ENTRY -> r_type r' = EXIT -> no_fold_id (r_addr r) = false -> t_ljp (tget g i) = false ->
   let T := STR g in
-  let '(e1, ta) := cstep forks i (inh_of tasks T i) (nth i T tstate0) r in
+  let '(e1, ta, sj1) := cstep forks i (inh_of tasks T i) (SJ g) (nth i T tstate0) r in
   let T1 := tupd T i ta in
-  let '(e2, tb) := cstep forks i (inh_of tasks T1 i) (nth i T1 tstate0) r' in
+  let '(e2, tb, sj2) := cstep forks i (inh_of tasks T1 i) sj1 (nth i T1 tstate0) r' in
   map core_of (events_of (fst (leaf_step c tasks g i r r'))) = e1 ++ e2 /\
-  STR (snd (leaf_step c tasks g i r r')) = tupd T1 i tb.
+  STR (snd (leaf_step c tasks g i r r')) = tupd T1 i tb /\
+  SJ (snd (leaf_step c tasks g i r r')) = sj2.
 Proof.
-  intros Hi Hfk Hty Hty'. cbn zeta. unfold leaf_step, cstep. rewrite Hty, Hty'.
+  intros Hi Hfk Hty Hty' Hnf Hlj0. cbn zeta. unfold leaf_step, cstep. rewrite Hty, Hty'.
   rewrite (tget_consume _ _ _ _ Hi).
   rewrite nth_STR, <- inherit_STR, <- strip_consume.
   replace (t_lost (strip (tget g i))) with (t_lost (tget g i)) by reflexivity.
   set (pend := t_lost (tget g i)).
   set (ts0 := consume_task (inherit tasks g i) (tget g i) r).
-  unfold is_fork, is_forkb. rewrite Hfk.
-  set (fk := existsb (N.eqb (r_addr r)) forks).
   set (ts1 := stamp ts0 (r_time r)).
   set (depth := if pend then t_sc ts1 - 1 else t_dd ts1).
-  set (ts2 := if fk then set_fork ts1 (depth + 1) else ts1).
   change (if pend then t_sc (strip ts0) - 1 else t_dd (strip ts0)) with depth.
+  rewrite (fixup_forks (mkcfg false forks) c) by (cbn [c_forks]; symmetry; exact Hfk).
+  rewrite strip_fixup.
+  assert (Hstamp : forall sj, strip (fst (fixup_entry c r depth ts1 sj)) = strip (fst (fixup_entry c r depth ts0 sj))
+                              /\ snd (fixup_entry c r depth ts1 sj) = snd (fixup_entry c r depth ts0 sj)).
+  { intros sj. unfold fixup_entry, ts1.
+    destruct (is_exec_id (r_addr r)); [split; reflexivity|].
+    destruct (is_setjmp_id (r_addr r)); [split; reflexivity|].
+    destruct (is_longjmp_id (r_addr r)); [split; reflexivity|].
+    destruct (is_fork c (r_addr r)); split; reflexivity. }
+  cbn [g_sjd g_sjc g_first].
+  set (sj0 := (g_sjd (consume tasks g i r), g_sjc (consume tasks g i r))).
+  change (SJ g) with sj0.
+  destruct (Hstamp sj0) as [Hs1 Hs2].
+  pose proof (fixup_fields c r depth ts1 sj0) as HF.
+  destruct (fixup_entry c r depth ts1 sj0) as [ts2 sj2] eqn:Efx.
+  cbn [fst snd] in *. rewrite <- Hs1, <- Hs2. cbn [fst snd].
+  destruct HF as (F1 & F2 & F3 & F4 & F5 & F6 & F7 & F8 & F9 & F10).
   assert (Hlen : (i < length (STR g))%nat) by (rewrite length_STR; exact Hi).
   rewrite nth_tupd by assumption. rewrite Nat.eqb_refl.
-  cbn [fst snd].
+  (* the unfolded first step ends with update_entry = set_dd (no exec, no longjmp) *)
+  assert (Hupd : forall x, update_entry r depth x sj2 = set_dd x (depth + 1)).
+  { intros x. unfold update_entry. unfold no_fold_id in Hnf. apply orb_false_iff in Hnf. destruct Hnf as [A B].
+    rewrite A, B. reflexivity. }
+  rewrite Hupd.
+  set (sa := strip ts2).
+  set (ta := set_dd sa (depth + 1)).
   (* the state in which r' is consumed *)
-  set (g2 := tset (mkg (g_tasks (consume tasks g i r)) (g_first (consume tasks g i r))
-                       (if r_time r =? 0 then g_prev (consume tasks g i r) else r_time r)) i (set_dd ts2 depth)).
+  set (g2 := tset (set_sj (mkg (g_tasks (consume tasks g i r)) (g_first (consume tasks g i r))
+                               (if r_time r =? 0 then g_prev (consume tasks g i r) else r_time r)
+                               (g_sjd (consume tasks g i r)) (g_sjc (consume tasks g i r))) sj2) i (set_dd ts2 depth)).
   assert (Hi2 : (i < length (g_tasks g2))%nat).
-  { unfold g2, tset, consume. cbn [g_tasks]. rewrite !length_tupd. exact Hi. }
+  { unfold g2, tset, set_sj, consume. cbn [g_tasks]. rewrite !length_tupd. exact Hi. }
   rewrite (tget_consume _ _ _ _ Hi2).
   assert (Hget2 : tget g2 i = set_dd ts2 depth).
-  { unfold g2, tset, tget, consume. cbn [g_tasks]. rewrite nth_tupd by (rewrite length_tupd; exact Hi).
+  { unfold g2, tset, set_sj, tget, consume. cbn [g_tasks]. rewrite nth_tupd by (rewrite length_tupd; exact Hi).
     rewrite Nat.eqb_refl. reflexivity. }
   rewrite Hget2.
   assert (Hset0 : t_set ts0 = true) by apply consume_set.
   assert (Hlost0 : t_lost ts0 = false) by (apply consume_lost_clear; unfold is_lost; rewrite Hty; reflexivity).
-  assert (Hset2 : t_set ts2 = true) by (unfold ts2, ts1; destruct fk; cbn [set_fork stamp t_set]; exact Hset0).
-  assert (Hlost2 : t_lost ts2 = false) by (unfold ts2, ts1; destruct fk; cbn [set_fork stamp t_lost]; exact Hlost0).
-  (* stripped view of ts2 and of the state after the unfolded first step *)
-  set (sa := if fk then set_fork (strip ts0) (depth + 1) else strip ts0).
-  assert (Hsa : strip ts2 = sa) by (unfold ts2, ts1, sa; destruct fk; reflexivity).
-  assert (Hsc : t_sc sa = t_sc ts2) by (rewrite <- Hsa; reflexivity).
-  set (ta := set_dd sa (depth + 1)).
-  assert (Hseta : t_set sa = true) by (rewrite <- Hsa; exact Hset2).
-  assert (Hlosta : t_lost sa = false) by (rewrite <- Hsa; exact Hlost2).
+  assert (Hljp0 : t_ljp ts0 = false) by (apply consume_ljp_false; exact Hlj0).
+  assert (Hset2 : t_set ts2 = true) by (rewrite F1; exact Hset0).
+  assert (Hlost2 : t_lost ts2 = false) by (rewrite F9; exact Hlost0).
+  assert (Hljp2 : t_ljp ts2 = false) by (rewrite F10; exact Hljp0).
+  assert (Hsc : t_sc sa = t_sc ts2) by reflexivity.
+  assert (Hseta : t_set sa = true) by exact Hset2.
+  assert (Hlosta : t_lost sa = false) by exact Hlost2.
+  assert (Hljpa : t_ljp sa = false) by exact Hljp2.
   replace (t_lost ta) with false by (unfold ta; cbn [set_dd t_lost]; symmetry; exact Hlosta).
   assert (Hseta' : t_set ta = true) by (unfold ta; cbn [set_dd t_set]; exact Hseta).
   assert (Hset2' : t_set (set_dd ts2 depth) = true) by (cbn [set_dd t_set]; exact Hset2).
   rewrite (consume_inh_irrelevant (inh_of tasks (tupd (STR g) i ta) i) 0 ta r' Hseta').
   rewrite (consume_inh_irrelevant (inherit tasks g2 i) 0 (set_dd ts2 depth) r' Hset2').
-  destruct (consume_exit_dd r' Hty' sa depth Hseta Hlosta) as (C1 & C2 & C3 & C4).
+  destruct (consume_exit_dd r' Hty' sa depth Hseta Hlosta Hljpa) as (C1 & C2 & C3 & C4).
   fold ta in C1.
   pose proof (strip_consume 0 (set_dd ts2 depth) r') as Hs3.
-  replace (strip (set_dd ts2 depth)) with (set_dd sa depth) in Hs3 by (rewrite <- Hsa; reflexivity).
+  replace (strip (set_dd ts2 depth)) with (set_dd sa depth) in Hs3 by reflexivity.
   set (ts3 := consume_task 0 (set_dd ts2 depth) r') in *.
   set (sb := consume_task 0 (set_dd sa depth) r') in *.
-  rewrite C1. cbn [set_dd t_dd t_stack t_sc].
-  replace (N.pred (depth + 1)) with depth by lia.
-  split.
+  rewrite C1. cbn [set_dd t_dd t_stack t_sc fst snd].
+  rewrite (N.add_1_r depth), N.pred_succ.
+  split; [|split].
   - rewrite events_warn_app by apply warn_of_warn. unfold events_of_line, mk.
     cbn [l_kind l_task l_indent l_name l_dur map core_of e_open e_task e_indent e_name e_dur app].
     f_equal. f_equal. f_equal. f_equal.
     replace (t_stack ts3) with (t_stack sb) by (rewrite <- Hs3; reflexivity).
     replace (t_sc ts2 - 1) with (t_sc sb); [reflexivity|].
-    rewrite C3, Hsc. lia.
+    rewrite C3, Hsc. clear. generalize (t_sc ts2). intros n. lia.
   - unfold STR at 1. unfold consume. cbn [g_tasks]. rewrite map_tupd. fold (STR g2).
     assert (HS2 : STR g2 = tupd (STR g) i (set_dd sa depth)).
-    { unfold g2, STR, tset, consume. cbn [g_tasks]. rewrite tupd_tupd, map_tupd. f_equal. rewrite <- Hsa. reflexivity. }
+    { unfold g2. rewrite STR_tset, STR_set_sj. unfold STR, consume. cbn [g_tasks]. rewrite map_tupd, tupd_tupd. reflexivity. }
     rewrite HS2, !tupd_tupd. f_equal.
     rewrite Hget2, (consume_inh_irrelevant (inherit tasks g2 i) 0 (set_dd ts2 depth) r' Hset2'). fold ts3. rewrite Hs3.
-    destruct sb as [st3 sc3 dd3 fd3 stk3 t3 tl3 or3 us3 lo3]. cbn [t_dd] in C2. subst dd3. reflexivity.
+    destruct sb as [st3 sc3 dd3 fd3 stk3 t3 tl3 or3 us3 lo3 lp3 ld3]. cbn [t_dd] in C2. subst dd3. reflexivity.
+  - destruct sj2; reflexivity.
 Qed.
 
 Lemma length_leaf_step c tasks g i r r' : length (g_tasks (snd (leaf_step c tasks g i r r'))) = length (g_tasks g).
-Proof. unfold leaf_step. cbn [snd]. unfold consume, tset. cbn [g_tasks]. rewrite !length_tupd. reflexivity. Qed.
+Proof.
+  unfold leaf_step. destruct (fixup_entry c r _ _ _) as [ts2 sj]. cbn [snd].
+  unfold consume, tset, set_sj. cbn [g_tasks]. rewrite !length_tupd. reflexivity.
+Qed.
 
 Lemma leaf_cond_true c i r tl : leaf_cond c i r tl = true ->
-  r_type r = ENTRY /\ exists r' tl', tl = (i, r') :: tl' /\ r_type r' = EXIT.
+  r_type r = ENTRY /\ no_fold_id (r_addr r) = false /\ exists r' tl', tl = (i, r') :: tl' /\ r_type r' = EXIT.
 Proof.
   unfold leaf_cond. destruct (r_type r); try discriminate.
   destruct tl as [|[j r'] tl']; [discriminate|]. intros H.
-  apply andb_true_iff in H. destruct H as [H H4]. apply andb_true_iff in H. destruct H as [H H3].
+  apply andb_true_iff in H. destruct H as [H H5]. apply andb_true_iff in H. destruct H as [H H4].
+  apply andb_true_iff in H. destruct H as [H H3].
   apply andb_true_iff in H. destruct H as [H1 H2]. apply Nat.eqb_eq in H2. subst j.
-  split; [reflexivity|]. exists r', tl'. split; [reflexivity|].
+  split; [reflexivity|]. split; [apply negb_true_iff in H5; exact H5|]. exists r', tl'. split; [reflexivity|].
   unfold is_exit in H4. destruct (r_type r'); try discriminate; reflexivity.
 Qed.
 
-(* with or without folding, the core events are those of the unfolded run on stripped states *)
+(* with or without folding, the core events are those of the unfolded run on stripped states
+   (for streams without longjmp(): a pending longjmp correction would move the depth between the
+   two halves of a folded leaf) *)
 Lemma run_core c forks tasks : c_forks c = forks -> forall n l g,
   (length l <= n)%nat -> Forall (fun p => (fst p < length (g_tasks g))%nat) l ->
-  map core_of (events_of (fst (run c tasks l g))) = crun forks tasks l (STR g).
+  no_longjmp l -> ljp_clear (STR g) ->
+  map core_of (events_of (fst (run c tasks l g))) = crun forks tasks l (STR g) (SJ g).
 Proof.
-  intros Hfk. induction n as [|n IH]; intros l g Hn Hb.
+  intros Hfk. induction n as [|n IH]; intros l g Hn Hb Hnl Hclr.
   - destruct l; [reflexivity|cbn in Hn; lia].
   - destruct l as [|[i r] tl]; [reflexivity|].
     inversion Hb as [|? ? Hi Hb']; subst. cbn [fst] in Hi. cbn [length] in Hn.
+    inversion Hnl as [|? ? Hr Hnl']; subst. cbn [snd] in Hr.
+    assert (Hlj0 : t_ljp (tget g i) = false).
+    { pose proof (ljp_clear_nth _ i Hclr) as H. rewrite nth_STR in H. exact H. }
     destruct (leaf_cond c i r tl) eqn:Hlc.
-    + destruct (leaf_cond_true _ _ _ _ Hlc) as (Hty & r' & tl' & -> & Hty').
+    + destruct (leaf_cond_true _ _ _ _ Hlc) as (Hty & Hnf & r' & tl' & -> & Hty').
       rewrite (run_cons_leaf _ _ _ _ _ _ _ _ Hlc).
-      pose proof (leaf_core c (c_forks c) tasks g i r r' Hi eq_refl Hty Hty') as HL. cbn zeta in HL.
+      pose proof (leaf_core c (c_forks c) tasks g i r r' Hi eq_refl Hty Hty' Hnf Hlj0) as HL. cbn zeta in HL.
       cbn [crun].
-      destruct (cstep (c_forks c) i (inh_of tasks (STR g) i) (nth i (STR g) tstate0) r) as [e1 ta].
-      destruct (cstep (c_forks c) i (inh_of tasks (tupd (STR g) i ta) i) (nth i (tupd (STR g) i ta) tstate0) r') as [e2 tb].
-      destruct HL as [HL1 HL2].
+      inversion Hnl' as [|? ? Hr' Hnl'']; subst. cbn [snd] in Hr'.
+      pose proof (cstep_ljp (c_forks c) i (inh_of tasks (STR g) i) (SJ g) (nth i (STR g) tstate0) r Hr
+                            (ljp_clear_nth _ i Hclr)) as Hj1.
+      destruct (cstep (c_forks c) i (inh_of tasks (STR g) i) (SJ g) (nth i (STR g) tstate0) r) as [[e1 ta] sj1].
+      cbn [fst snd] in Hj1.
+      assert (Hclr1 : ljp_clear (tupd (STR g) i ta)) by (apply ljp_clear_tupd; assumption).
+      pose proof (cstep_ljp (c_forks c) i (inh_of tasks (tupd (STR g) i ta) i) sj1 (nth i (tupd (STR g) i ta) tstate0) r' Hr'
+                            (ljp_clear_nth _ i Hclr1)) as Hj2.
+      destruct (cstep (c_forks c) i (inh_of tasks (tupd (STR g) i ta) i) sj1 (nth i (tupd (STR g) i ta) tstate0) r') as [[e2 tb] sj2].
+      cbn [fst snd] in Hj2.
+      destruct HL as (HL1 & HL2 & HL3).
       pose proof (length_leaf_step c tasks g i r r') as Hlen.
       destruct (leaf_step c tasks g i r r') as [ls g'] eqn:Els. cbn [fst snd] in *.
       inversion Hb' as [|? ? _ Hb'']; subst.
       specialize (IH tl' g'). destruct (run c tasks tl' g') as [out g''] eqn:Er. cbn [fst] in *.
-      rewrite events_of_app, map_app, HL1, IH, HL2, <- app_assoc; [reflexivity|cbn [length] in Hn; lia|].
-      rewrite Hlen. exact Hb''.
+      rewrite events_of_app, map_app, HL1, IH, HL2, ?HL3, <- app_assoc; [reflexivity|cbn [length] in Hn; lia| | |].
+      * rewrite Hlen. exact Hb''.
+      * exact Hnl''.
+      * rewrite HL2. apply ljp_clear_tupd; assumption.
     + rewrite (run_cons_step _ _ _ _ _ _ Hlc).
-      pose proof (step_core c (c_forks c) tasks g i r Hi eq_refl) as [HS1 HS2].
+      pose proof (step_core c (c_forks c) tasks g i r Hi eq_refl) as HS. cbn zeta in HS.
       pose proof (length_step c tasks g i r) as Hlen.
       cbn [crun].
-      destruct (cstep (c_forks c) i (inh_of tasks (STR g) i) (nth i (STR g) tstate0) r) as [e1 ta].
+      pose proof (cstep_ljp (c_forks c) i (inh_of tasks (STR g) i) (SJ g) (nth i (STR g) tstate0) r Hr
+                            (ljp_clear_nth _ i Hclr)) as Hj1.
+      destruct (cstep (c_forks c) i (inh_of tasks (STR g) i) (SJ g) (nth i (STR g) tstate0) r) as [[e1 ta] sj1].
+      cbn [fst snd] in *. destruct HS as (HS1 & HS2 & HS3).
       destruct (step c tasks g i r) as [ls g'] eqn:Es. cbn [fst snd] in *.
       specialize (IH tl g'). destruct (run c tasks tl g') as [out g''] eqn:Er. cbn [fst] in *.
-      rewrite events_of_app, map_app, HS1, IH, HS2; [reflexivity|lia|].
-      rewrite Hlen. exact Hb'.
+      rewrite events_of_app, map_app, HS1, IH, HS2, ?HS3; [reflexivity|lia| | |].
+      * rewrite Hlen. exact Hb'.
+      * exact Hnl'.
+      * rewrite HS2. apply ljp_clear_tupd; assumption.
 Qed.
 
+Definition no_longjmp_tasks (tasks : list task) : bool :=
+  forallb (fun t => forallb (fun r => negb (is_longjmp_id (r_addr r))) (k_recs t)) tasks.
+
 (* C06: folding a leaf call into one line never changes the calls shown *)
-Theorem fold_is_presentation forks sel tasks :
+Theorem fold_is_presentation forks sel tasks : no_longjmp_tasks tasks = true ->
   map core_of (events_of (fst (replay_raw (mkcfg true forks) sel tasks))) =
   map core_of (events_of (fst (replay_raw (mkcfg false forks) sel tasks))).
 Proof.
-  unfold replay_raw.
+  intros Hnl. unfold replay_raw.
   assert (Hb : Forall (fun p => (fst p < length (g_tasks (init_g sel tasks)))%nat) (merge (mask_queues sel tasks 0))).
   { pose proof (merge_tags_valid (mask_queues sel tasks 0)) as H.
     rewrite mask_queues_mask, length_mask, map_length in H. unfold init_g. cbn [g_tasks]. rewrite map_length.
     rewrite mask_queues_mask. exact H. }
-  rewrite (run_core (mkcfg true forks) forks tasks eq_refl _ _ _ (le_n _) Hb).
-  rewrite (run_core (mkcfg false forks) forks tasks eq_refl _ _ _ (le_n _) Hb).
+  assert (Hn : no_longjmp (merge (mask_queues sel tasks 0))).
+  { apply Forall_forall. intros [i r] Hin. cbn [snd].
+    apply in_proj_early in Hin. rewrite merge_preserves_task_order, mask_queues_mask, nth_mask in Hin. cbn [Nat.add] in Hin.
+    destruct (selected sel i); [|destruct Hin].
+    destruct (Nat.lt_ge_cases i (length tasks)) as [Hlt|Hge].
+    - rewrite (nth_indep _ [] (k_recs (mktask None []))) in Hin by (rewrite map_length; exact Hlt).
+      rewrite map_nth in Hin. unfold no_longjmp_tasks in Hnl. rewrite forallb_forall in Hnl.
+      specialize (Hnl _ (nth_In tasks (mktask None []) Hlt)). rewrite forallb_forall in Hnl.
+      apply negb_true_iff. apply Hnl. exact Hin.
+    - rewrite nth_overflow in Hin by (rewrite map_length; exact Hge). destruct Hin. }
+  assert (Hc : ljp_clear (STR (init_g sel tasks))).
+  { unfold ljp_clear, STR, init_g. cbn [g_tasks]. rewrite map_map. apply Forall_forall. intros x Hx.
+    apply in_map_iff in Hx. destruct Hx as (t & <- & _). reflexivity. }
+  rewrite (run_core (mkcfg true forks) forks tasks eq_refl _ _ _ (le_n _) Hb Hn Hc).
+  rewrite (run_core (mkcfg false forks) forks tasks eq_refl _ _ _ (le_n _) Hb Hn Hc).
   reflexivity.
 Qed.
 
@@ -1036,6 +1268,23 @@ Proof.
   rewrite spec_forest, spec_tail. reflexivity.
 Qed.
 
+Lemma wf_stream_no_longjmp : forall rs d last, wf_stream d last rs = true ->
+  forallb (fun r => negb (is_longjmp_id (r_addr r))) rs = true.
+Proof.
+  induction rs as [|r rs IH]; intros d last H; [reflexivity|]. cbn [wf_stream forallb] in *.
+  apply andb_true_iff in H. destruct H as [H1 H2]. apply andb_true_iff in H1. destruct H1 as [_ Hp].
+  destruct (plain_not_special _ Hp) as (_ & _ & C). rewrite C. cbn [negb andb].
+  destruct (r_type r); try discriminate.
+  - apply andb_true_iff in H2. destruct H2 as [_ H2]. exact (IH _ _ H2).
+  - apply andb_true_iff in H2. destruct H2 as [_ H2]. exact (IH _ _ H2).
+Qed.
+
+Lemma wf_no_longjmp tasks : forallb wf_task tasks = true -> no_longjmp_tasks tasks = true.
+Proof.
+  intros H. unfold no_longjmp_tasks. apply forallb_forall. intros t Ht. rewrite forallb_forall in H. specialize (H t Ht).
+  unfold wf_task in H. destruct (k_recs t) as [|r rs] eqn:E; [reflexivity|]. exact (wf_stream_no_longjmp _ _ _ H).
+Qed.
+
 (* the same through the folded (default) view, on the core of the events *)
 Theorem task_calls_exact_folded forks sel tasks i d f t :
   forallb wf_task tasks = true -> selected sel i = true ->
@@ -1045,7 +1294,7 @@ Theorem task_calls_exact_folded forks sel tasks i d f t :
          (map core_of (events_of (fst (replay_raw (mkcfg true forks) sel tasks)))) =
   map core_of (render_forest i 0 f ++ render_tail i 0 t).
 Proof.
-  intros Hwf Hsel Hpar Hrecs. rewrite fold_is_presentation.
+  intros Hwf Hsel Hpar Hrecs. rewrite (fold_is_presentation _ _ _ (wf_no_longjmp _ Hwf)).
   rewrite <- (task_calls_exact forks sel tasks i d f t Hwf Hsel Hpar Hrecs).
   generalize (events_of (fst (replay_raw (mkcfg false forks) sel tasks))).
   induction l as [|e l IH]; [reflexivity|]. cbn [map filter]. unfold of_task at 1. unfold core_of at 1. cbn [fst snd].
@@ -1411,21 +1660,23 @@ Lemma consume_entry_fields inh ts r : t_set ts = true -> r_type r = ENTRY ->
   t_sc (consume_task inh ts r) = (if t_lost ts then r_depth r else t_sc ts) + 1 /\
   t_dd (consume_task inh ts r) = t_dd ts.
 Proof.
-  intros Hs Hty. destruct ts as [st sc dd fd stk t tl orp usc lost]. cbn [t_set] in Hs. subst st.
+  intros Hs Hty. destruct ts as [st sc dd fd stk t tl orp usc lost ljp ljd]. cbn [t_set] in Hs. subst st.
   unfold consume_task, first_setup, is_lost. rewrite Hty. cbn [t_set t_lost]. rewrite andb_false_r.
   unfold count, account, resync. rewrite Hty. cbn [t_lost]. destruct lost; cbn [t_sc t_dd]; split; reflexivity.
 Qed.
 
 Lemma consume_exit_fields inh ts r : t_set ts = true -> r_type r = EXIT ->
-  t_sc (consume_task inh ts r) = N.pred (if t_lost ts then r_depth r + 1 else t_sc ts) /\
-  t_dd (consume_task inh ts r) = t_dd ts.
+  (if t_lost ts then r_depth r + 1 else t_sc ts) = r_depth r + 1 ->
+  t_sc (consume_task inh ts r) = r_depth r /\ t_dd (consume_task inh ts r) = t_dd ts.
 Proof.
-  intros Hs Hty. destruct ts as [st sc dd fd stk t tl orp usc lost]. cbn [t_set] in Hs. subst st.
+  intros Hs Hty Hb. destruct ts as [st sc dd fd stk t tl orp usc lost ljp ljd]. cbn [t_set t_lost t_sc] in Hs, Hb. subst st.
   unfold consume_task, first_setup, is_lost. rewrite Hty. cbn [t_set t_lost]. rewrite andb_false_r.
   unfold count, account, resync. rewrite Hty. cbn [t_lost t_sc].
-  destruct lost; cbn [t_sc t_dd].
-  - destruct (r_depth r + 1 =? 0); cbn [t_sc t_dd]; split; reflexivity.
-  - destruct (sc =? 0); cbn [t_sc t_dd]; split; reflexivity.
+  destruct lost; cbn [t_sc t_dd t_ljp t_ljd t_lost].
+  - destruct (r_depth r + 1 =? 0) eqn:E0; [lia|]. cbn [t_sc t_dd t_ljp t_ljd].
+    destruct (ljp && (r_depth r <=? ljd)); cbn [t_sc t_dd]; split; lia.
+  - destruct (sc =? 0) eqn:E0; [lia|]. cbn [t_sc t_dd t_ljp t_ljd].
+    destruct (ljp && (r_depth r <=? ljd)); cbn [t_sc t_dd]; split; lia.
 Qed.
 
 (* tracker state of a task vs. its reader state *)
@@ -1483,45 +1734,56 @@ Proof.
   set (inh := inherit tasks g i). set (ts := tget g i) in *.
   destruct (r_type r) eqn:Hty; cbn [fst snd].
   - (* ENTRY *)
-    assert (Hev : forall ws ln, Forall (fun w => not_warn w = false) ws -> l_kind ln = KOpen ->
-              events_of (ws ++ [ln]) = [mkev true (l_task ln) (l_indent ln) (l_name ln) 0 (l_time ln)]).
-    { intros ws ln Hw Hk. rewrite events_warn_app by exact Hw. unfold events_of_line. rewrite Hk. reflexivity. }
+    cbn [g_sjd g_sjc g_first].
+    set (ts1 := stamp (consume_task inh ts r) (r_time r)).
+    set (depth := if t_lost ts then t_sc ts1 - 1 else t_dd ts1).
+    pose proof (fixup_fields c r depth ts1 (g_sjd (consume tasks g i r), g_sjc (consume tasks g i r))) as HF.
+    destruct (fixup_entry c r depth ts1 (g_sjd (consume tasks g i r), g_sjc (consume tasks g i r))) as [ts2 sj2].
+    cbn [fst snd] in *. destruct HF as (F1 & F2 & F3 & F4 & F5 & F6 & F7 & F8 & F9 & F10).
+    assert (Hset1 : t_set ts1 = true) by apply consume_set.
+    assert (Hlost1 : t_lost ts1 = false) by (apply consume_lost_clear; unfold is_lost; rewrite Hty; reflexivity).
     split.
     + eapply Hother.
-      * unfold tset, consume. cbn [g_tasks]. rewrite tupd_tupd. reflexivity.
-      * destruct (nth i T TNone) as [| |d]; cbn [trk_ok fst] in *; [exact I| |].
-        -- destruct Hti as [Hs Hl]. destruct (consume_entry_fields inh ts r Hs Hty) as [Fsc Fdd]. rewrite Hl in *.
-           unfold is_fork. cbn [c c_forks].
-           destruct (existsb (N.eqb (r_addr r)) forks); cbn [set_dd set_fork stamp t_set t_lost t_sc t_dd];
-             rewrite consume_set, consume_lost_clear by (unfold is_lost; rewrite Hty; reflexivity);
-             repeat split; try assumption; rewrite Fsc; lia.
-        -- destruct Hti as (Hs & Hl & Hsc & Hdd). destruct (consume_entry_fields inh ts r Hs Hty) as [Fsc Fdd]. rewrite Hl in *.
+      * unfold tset, set_sj, consume. cbn [g_tasks]. rewrite tupd_tupd. reflexivity.
+      * destruct (no_fold_id (r_addr r)) eqn:Enf; [exact I|].
+        assert (Hupd : update_entry r depth ts2 sj2 = set_dd ts2 (depth + 1)).
+        { unfold update_entry. unfold no_fold_id in Enf. apply orb_false_iff in Enf. destruct Enf as [A B]. rewrite A, B. reflexivity. }
+        rewrite Hupd.
+        destruct (nth i T TNone) as [| |d]; cbn [trk_ok fst] in *; [exact I| |].
+        -- destruct Hti as [Hs Hl]. destruct (consume_entry_fields inh ts r Hs Hty) as [Fsc Fdd].
+           cbn [set_dd t_set t_lost t_sc t_dd]. rewrite F1, F9, F2.
+           unfold depth. rewrite Hl in *. unfold ts1. cbn [stamp t_sc]. rewrite Fsc.
+           repeat split; try assumption; lia.
+        -- destruct Hti as (Hs & Hl & Hsc & Hdd). destruct (consume_entry_fields inh ts r Hs Hty) as [Fsc Fdd].
            destruct (r_depth r =? d) eqn:Ed; cbn [trk_ok fst]; [|exact I].
-           unfold is_fork. cbn [c c_forks].
-           destruct (existsb (N.eqb (r_addr r)) forks); cbn [set_dd set_fork stamp t_set t_lost t_sc t_dd];
-             rewrite consume_set, consume_lost_clear by (unfold is_lost; rewrite Hty; reflexivity);
-             repeat split; try assumption; rewrite ?Fsc, ?Fdd; lia.
-    + eexists. split; [apply Hev; [apply warn_of_warn|reflexivity]|].
-      unfold mk. cbn [l_task l_indent l_name l_time e_task e_open e_name e_time e_indent negb].
-      repeat split; try reflexivity.
-      * unfold is_fork. cbn [c c_forks]. destruct (existsb (N.eqb (r_addr r)) forks); reflexivity.
-      * intros Hm. destruct (nth i T TNone) as [| |d]; cbn [trk_ok snd] in *; [discriminate| |].
-        -- destruct Hti as [Hs Hl]. destruct (consume_entry_fields inh ts r Hs Hty) as [Fsc Fdd]. rewrite Hl in *.
-           unfold is_fork. cbn [c c_forks]. destruct (existsb (N.eqb (r_addr r)) forks); cbn [set_fork stamp t_sc]; rewrite Fsc; lia.
-        -- destruct Hti as (Hs & Hl & Hsc & Hdd). destruct (consume_entry_fields inh ts r Hs Hty) as [Fsc Fdd]. rewrite Hl in *.
-           destruct (r_depth r =? d) eqn:Ed; cbn [snd] in Hm; [|discriminate].
-           unfold is_fork. cbn [c c_forks]. destruct (existsb (N.eqb (r_addr r)) forks); cbn [set_fork stamp t_dd]; rewrite Fdd; lia.
+           cbn [set_dd t_set t_lost t_sc t_dd]. rewrite F1, F9, F2.
+           unfold depth. rewrite Hl in *. unfold ts1. cbn [stamp t_sc t_dd]. rewrite Fsc, Fdd.
+           repeat split; try assumption; lia.
+    + eexists. split.
+      * rewrite events_warn_app by apply warn_of_warn. unfold events_of_line, mk. cbn [l_kind]. reflexivity.
+      * cbn [l_task l_indent l_name l_time e_task e_open e_name e_time e_indent negb].
+        repeat split; try reflexivity.
+        -- rewrite F5. reflexivity.
+        -- intros Hm. destruct (no_fold_id (r_addr r)) eqn:Enf; [cbn [snd] in Hm; discriminate|].
+           destruct (nth i T TNone) as [| |d]; cbn [trk_ok snd] in *; [discriminate| |].
+           ++ destruct Hti as [Hs Hl]. destruct (consume_entry_fields inh ts r Hs Hty) as [Fsc Fdd].
+              unfold depth. rewrite Hl. unfold ts1. cbn [stamp t_sc]. rewrite Fsc, Hl. lia.
+           ++ destruct Hti as (Hs & Hl & Hsc & Hdd). destruct (consume_entry_fields inh ts r Hs Hty) as [Fsc Fdd].
+              destruct (r_depth r =? d) eqn:Ed; cbn [snd] in Hm; [|discriminate].
+              unfold depth. rewrite Hl. unfold ts1. cbn [stamp t_dd]. rewrite Fdd. lia.
   - (* EXIT *)
     split.
     + eapply Hother.
       * unfold tset, consume. cbn [g_tasks]. rewrite tupd_tupd. reflexivity.
       * destruct (nth i T TNone) as [| |d]; cbn [trk_ok fst] in *; [exact I| |].
-        -- destruct Hti as [Hs Hl]. destruct (consume_exit_fields inh ts r Hs Hty) as [Fsc Fdd]. rewrite Hl in *.
+        -- destruct Hti as [Hs Hl].
+           destruct (consume_exit_fields inh ts r Hs Hty) as [Fsc Fdd]; [rewrite Hl; reflexivity|]. rewrite Hl in *.
            cbn [set_dd stamp t_set t_lost t_sc t_dd].
            rewrite consume_set, consume_lost_clear by (unfold is_lost; rewrite Hty; reflexivity).
            repeat split; try assumption; rewrite Fsc; lia.
-        -- destruct Hti as (Hs & Hl & Hsc & Hdd). destruct (consume_exit_fields inh ts r Hs Hty) as [Fsc Fdd]. rewrite Hl in *.
+        -- destruct Hti as (Hs & Hl & Hsc & Hdd).
            destruct ((0 <? d) && (r_depth r + 1 =? d)) eqn:Ed; cbn [trk_ok fst]; [|exact I].
+           destruct (consume_exit_fields inh ts r Hs Hty) as [Fsc Fdd]; [rewrite Hl; lia|]. rewrite Hl in *.
            cbn [set_dd stamp t_set t_lost t_sc t_dd].
            rewrite consume_set, consume_lost_clear by (unfold is_lost; rewrite Hty; reflexivity).
            repeat split; try assumption; rewrite ?Fsc, ?Fdd; lia.
@@ -1529,10 +1791,12 @@ Proof.
       * rewrite events_warn_app by apply warn_of_warn. unfold events_of_line, mk. cbn [l_kind]. reflexivity.
       * cbn [l_task l_indent l_name l_time e_task e_open e_name e_time e_indent negb]. repeat split; try reflexivity.
         intros Hm. destruct (nth i T TNone) as [| |d]; cbn [trk_ok snd] in *; [discriminate| |].
-        -- destruct Hti as [Hs Hl]. destruct (consume_exit_fields inh ts r Hs Hty) as [Fsc Fdd]. rewrite Hl in *.
+        -- destruct Hti as [Hs Hl].
+           destruct (consume_exit_fields inh ts r Hs Hty) as [Fsc Fdd]; [rewrite Hl; reflexivity|]. rewrite Hl in *.
            cbn [stamp t_sc]. rewrite Fsc. lia.
-        -- destruct Hti as (Hs & Hl & Hsc & Hdd). destruct (consume_exit_fields inh ts r Hs Hty) as [Fsc Fdd]. rewrite Hl in *.
+        -- destruct Hti as (Hs & Hl & Hsc & Hdd).
            destruct ((0 <? d) && (r_depth r + 1 =? d)) eqn:Ed; cbn [snd] in Hm; [|discriminate].
+           destruct (consume_exit_fields inh ts r Hs Hty) as [Fsc Fdd]; [rewrite Hl; lia|]. rewrite Hl in *.
            cbn [stamp t_dd]. rewrite Fdd. lia.
   - (* LOST *)
     split.
